@@ -44,7 +44,8 @@ def plan(tier, seed):
               spec=pick(rng, ["geo", "geo", "cluster", "repeat", "identity-ish"]),
               cond=float(10 ** rng.uniform(0, 3)),
               x0=pick(rng, ["zero", "rand"]),
-              P=pick(rng, ["none", "none", "jacobi", "hpd", "inverse"]),
+              P=pick(rng, ["none", "none", "jacobi", "hpd", "inverse", "identity", "buffered"]),
+              decoy=bool(rng.random() < 0.3),
               A=pick(rng, ["linop", "func"]),
               mi=pick(rng, ["1", "2", "n-1", "n", "n+2"]),
               tol=pick(rng, [0.0, 0.0, 1e-6]),
@@ -122,8 +123,10 @@ def run_cg(case):
     M = hpd(rng, n, cplx, case["spec"], case["cond"])
     b = crandn(rng, [n], dt)
     x0 = np.zeros(n, dt) if case["x0"] == "zero" else crandn(rng, [n], dt)
-    if case["P"] == "none":
+    if case["P"] in ("none", "identity"):
         Pm = np.eye(n, dtype=dt)
+    elif case["P"] == "buffered":
+        Pm = hpd(rng, n, cplx, "geo", 10.0)
     elif case["P"] == "jacobi":
         Pm = np.diag(1 / np.real(np.diag(M))).astype(dt)
     elif case["P"] == "hpd":
@@ -144,6 +147,16 @@ def run_cg(case):
     else:
         Aop = lambda v: M @ v                # noqa: E731
         Pop = None if case["P"] == "none" else (lambda v: Pm @ v)
+    if case["P"] == "identity":
+        # a valid preconditioner that returns its own argument (no fresh array)
+        Pop = sp.linop.Identity(shape) if col else (lambda v: v)
+    elif case["P"] == "buffered":
+        # a function preconditioner that writes into its own, re-used output buffer
+        _buf = np.zeros(shape, dt)
+
+        def Pop(v, _buf=_buf):
+            np.copyto(_buf, (Pm @ v.reshape(n)).reshape(shape))
+            return _buf
     x = x0.reshape(shape).copy()
     bb = b.reshape(shape).copy()
     lay = case["rs"][-1] % 4
@@ -161,14 +174,24 @@ def run_cg(case):
                              "k%d" % int(np.log10(case["cond"])), case["x0"], case["P"],
                              "linop" if (case["A"] == "linop" or col) and col else "func",
                              case["mi"], case["tol"], case["layout"], "n%d" % min(n, 3),
-                             "lay%d" % (case["rs"][-1] % 4)]))
+                             "lay%d" % (case["rs"][-1] % 4), "decoy" if case.get("decoy") else ""]))
     wit = dict(case)
     alg = sp.alg.ConjugateGradient(Aop, bb, x, P=Pop, max_iter=mi, tol=case["tol"])
+    decoy = None
+    if case.get("decoy"):
+        # a second solver of the same shape and dtype alive at the same time and stepped in
+        # lock-step: solver objects must not share working storage
+        M2 = hpd(rng, n, cplx, "geo", 10.0)
+        decoy = sp.alg.ConjugateGradient(
+            (sp.linop.MatMul(shape, M2) if col else (lambda v: M2 @ v)),
+            crandn(rng, shape, dt), np.zeros(shape, dt), max_iter=mi + 3)
     xstar = np.linalg.solve(M, b)
     e0 = anorm(M, x0 - xstar)
     hist = []
     nupd = 0
     while not alg.done():
+        if decoy is not None and not decoy.done():
+            decoy.update()
         alg.update()
         nupd += 1
         hist.append({"k": nupd, "iter": alg.iter, "x": alg.x.ravel().copy(),
